@@ -160,7 +160,9 @@ impl IndicatorInstance for MoneyFlowIndexInstance {
 			self.pmf / self.nmf
 		};
 
-		let value = 1. - (1. + mfr).recip();
+		// pmf / nmf keep rounding residue of either sign once the typical price stops moving: `mfr` can then be negative
+		// (even exactly -1) and the value anything down to -inf; stay in the documented range
+		let value = (1. - (1. + mfr).recip()).clamp(0., 1.);
 
 		let upper = 1. - self.cfg.zone;
 		let lower = self.cfg.zone;
